@@ -1,5 +1,6 @@
 import LexVerif.Props.C01Final
 import LexVerif.Props.C05
+import LexVerif.Proof.BinaryWide
 /-!
 # Props.C05Final — the non-decimal pipeline: `parseFloatAlgoModel slowModel = parseFloatModel` for every radix class
 
@@ -20,6 +21,7 @@ open LexVerif.Spec LexVerif.Model LexVerif.Model.ParseFloatAlgo
 open LexVerif.Proof.RoundNE LexVerif.Proof.ExtRound LexVerif.Proof.Pipeline LexVerif.Proof.Bell
 open LexVerif.Props.C01 (IsLemireFloat IsI64 Bracket)
 open LexVerif.Props.C01Main LexVerif.Props.C01SlowMain LexVerif.Props.C01Final LexVerif.Props.C05
+open LexVerif.Proof.BinaryWide (ExpWide)
 
 /-! ## generic radices: Bellerophon -/
 
@@ -252,11 +254,83 @@ theorem binary_no_panic (F : FTy) (b : Nat) (n : Num) (lossy : Bool) : Binary.bi
 theorem binary_sign (F : FTy) (b m : Nat) (e : Int) (neg many lossy : Bool) :
     Binary.binary F b ⟨m, e, neg, many⟩ lossy = Binary.binary F b ⟨m, e, false, many⟩ lossy := rfl
 
+/-! ## `binary` outside `±2^27` (the saturating `calculate_power2` of /repo commit 220c4cc) -/
+
+/-- outside `±2^27`, inside `ExpWide`: `binary` answers `+∞` / `0`, and so rounds every value `≥ base^e` /
+`< 2^64·base^e` (all values a mantissa word `1 ≤ M < 2^64`, truncated or not, can stand for) -/
+theorem binary_out_of_range {F : FTy} (hF : IsLemireFloat F) {base : Nat} (hb : IsPow2 base) (n : Num) (lossy : Bool)
+    (h0 : n.mantissa ≠ 0) (hm : n.mantissa < 2 ^ 64) (he : ExpWide n.exponent) (hout : ¬ ExpInRange n.exponent) :
+    ∃ fp, Binary.binary F base n lossy = .ok fp ∧ 0 ≤ fp.exp ∧
+      ∀ num den, 0 < den → (0 < n.exponent → base ^ n.exponent.toNat * den ≤ num) →
+        (n.exponent < 0 → num * base ^ (-n.exponent).toNat < 2 ^ 64 * den) →
+        extendedToFloat F fp = roundNE F.fmt num den := by
+  obtain ⟨p, eb, lay⟩ := layout_of hF
+  obtain ⟨lg, hlg⟩ := LexVerif.Proof.BinaryCorrect.isPow2Base_of base hb
+  have h27 : (2 : Int) ^ 27 = 134217728 := by decide
+  have h59 : (2 : Int) ^ 59 = 576460752303423488 := by decide
+  have h27n : (2 : Nat) ^ 27 = 134217728 := by decide
+  have h59n : (2 : Nat) ^ 59 = 576460752303423488 := by decide
+  unfold ExpInRange at hout
+  obtain ⟨he1, he2⟩ := he
+  by_cases hhi : (2 ^ 27 : Int) < n.exponent
+  · refine ⟨_, LexVerif.Proof.BinaryWide.binary_hi lay hb n lossy h0 hm hhi he2, ?_, ?_⟩
+    · show 0 ≤ F.C.infinitePower; rw [lay.infp]; omega
+    · intro num den hd h1 _
+      rw [LexVerif.Proof.BinaryCorrect.ext_infinite lay]
+      exact (LexVerif.Proof.BinaryWide.roundNE_hi lay hlg n.exponent.toNat (by omega) (by omega) num den hd
+        (h1 (by omega))).symm
+  · have hlo : n.exponent < -(2 ^ 27 : Int) := by omega
+    refine ⟨_, LexVerif.Proof.BinaryWide.binary_lo lay hb n lossy h0 hm he1 hlo, Int.le_refl _, ?_⟩
+    intro num den hd _ h2
+    rw [LexVerif.Proof.BinaryCorrect.ext_zero lay]
+    exact (LexVerif.Proof.BinaryWide.roundNE_lo lay hlg (-n.exponent).toNat (by omega) num den hd (h2 (by omega))).symm
+
+/-- **power-of-two radices, untruncated mantissa, every exponent of `ExpWide`**: `pipeline_binary` inside `±2^27`, the
+saturated answers `+∞` / `0` outside -/
+theorem pipeline_binary_wide (slow : SlowRadix) {F : FTy} (hF : IsLemireFloat F) (c : Cfg)
+    (hp : c.feats.powerOfTwo = true) (hr : IsPow2 c.mantissaRadix) (hb : IsPow2 c.exponentBase)
+    (n : Number) (hmany : n.manyDigits = false) (hw : n.mantissa < 2 ^ 64) (he : ExpWide n.exponent)
+    (hx : RatEq (powFrac c.exponentBase n.exponent n.mantissa)
+      (litFrac c.mantissaRadix c.exponentBase (numberLit c n))) :
+    numberToFloat slow c F n false = some (litBits F.fmt c.mantissaRadix c.exponentBase (numberLit c n)) := by
+  by_cases hin : ExpInRange n.exponent
+  · exact pipeline_binary slow hF c hp hr hb n hmany hw hin hx
+  obtain ⟨p, eb, lay⟩ := layout_of hF
+  have hS := radixSet_of_pow2 c.feats hp
+  have hr2 : 2 ≤ c.mantissaRadix ∧ c.mantissaRadix ≤ 36 := by
+    rcases hr with h | h | h | h | h <;> rw [h] <;> omega
+  have hb2 : 2 ≤ c.exponentBase := by
+    rcases hb with h | h | h | h | h <;> rw [h] <;> omega
+  have hmp : moderatePath c F (numOf n) false = Binary.binary F c.exponentBase (numOf n) false := by
+    unfold moderatePath
+    rw [backend_binary _ hp hr]
+  by_cases h0 : n.mantissa = 0
+  · apply numberToFloat_decided slow hF c hr2.1 hr2.2 hb2 n hmany hx
+      (fastContract_radix hF c hS (pow2_mem_radices hS hr) n) (fp := ⟨0, 0⟩) ?_ (Int.le_refl _) ?_
+    · rw [hmp, LexVerif.Proof.BinaryCorrect.binary_eq]
+      have e : (numOf n).mantissa = 0 := h0
+      rw [if_pos e]
+    · rw [h0, LexVerif.Proof.BinaryCorrect.powFrac_zero, LexVerif.Proof.BinaryCorrect.ext_zero lay]
+  · obtain ⟨fp, hbin, hv, hval⟩ := binary_out_of_range hF hb (numOf n) false h0 hw he hin
+    apply numberToFloat_decided slow hF c hr2.1 hr2.2 hb2 n hmany hx
+      (fastContract_radix hF c hS (pow2_mem_radices hS hr) n) (fp := fp) (by rw [hmp]; exact hbin) hv
+    have e3 : (numOf n).exponent = n.exponent := rfl
+    rw [e3] at hval
+    apply hval _ _ (powFrac_den_pos (by omega) _ _)
+    · intro hpos
+      unfold powFrac
+      rw [if_pos (by omega), Nat.mul_one]
+      exact Nat.le_mul_of_pos_left _ (Nat.pos_of_ne_zero h0)
+    · intro hneg
+      unfold powFrac
+      rw [if_neg (by omega)]
+      exact Nat.mul_lt_mul_of_pos_right hw (Nat.pow_pos (by omega))
+
 /-- what the syntax layer owes for a **truncated** `Number` of a power-of-two radix: the mantissa word holds the first
 `u64_step` significant digits, more follow, and the value of the digit slices with the explicit exponent is
 `(all significant digits)·base^exponent / radix^(number of digits beyond u64_step)` -/
 structure TruncPow2At (c : Cfg) (n : Number) : Prop where
-  exp : ExpInRange n.exponent
+  exp : ExpWide n.exponent
   valid : ∀ x ∈ n.integer ++ n.fraction.getD [], x < 256 ∧ Binary.digitVal x c.mantissaRadix < c.mantissaRadix
   long : (smallSetOf c.feats).u64Step c.mantissaRadix < (sigDigits c.mantissaRadix n.integer n.fraction).length
   mant : n.mantissa = LexVerif.Proof.SlowBinary.valOf c.mantissaRadix 0
@@ -373,6 +447,49 @@ theorem numberToFloat_pow2_truncated (slow : SlowRadix) {F : FTy} (hF : IsLemire
       c.mantissaRadix ^ (ds.length - step) :=
     Nat.mul_pos (powFrac_den_pos (by omega) _ _) (Nat.pow_pos (by omega))
   have hcg := roundNE_congr' lay.wf hlitpos hpfpos hvalue
+  by_cases hin : ExpInRange n.exponent
+  swap
+  · -- outside `±2^27`: `binary` answers `+∞` / `0`, which is what the whole literal rounds to
+    obtain ⟨fp, hbin, hv, hval⟩ := binary_out_of_range hF hb (numOf n) false hM0 hw hexp hin
+    have e3 : (numOf n).exponent = n.exponent := rfl
+    rw [e3] at hval
+    have hK : c.mantissaRadix ^ (ds.length - step) ≤ valOf c.mantissaRadix 0 ds := by
+      rw [hsplit]
+      calc c.mantissaRadix ^ (ds.length - step) = 1 * c.mantissaRadix ^ (ds.length - step) := (Nat.one_mul _).symm
+        _ ≤ n.mantissa * c.mantissaRadix ^ (ds.length - step) := Nat.mul_le_mul_right _ (by omega)
+        _ ≤ _ := Nat.le_add_right _ _
+    have hKu : valOf c.mantissaRadix 0 ds < 2 ^ 64 * c.mantissaRadix ^ (ds.length - step) := by
+      rw [hsplit]
+      calc n.mantissa * c.mantissaRadix ^ (ds.length - step) + valOf c.mantissaRadix 0 (ds.drop step)
+          < n.mantissa * c.mantissaRadix ^ (ds.length - step) + c.mantissaRadix ^ (ds.length - step) := by omega
+        _ = (n.mantissa + 1) * c.mantissaRadix ^ (ds.length - step) := by ring
+        _ ≤ 2 ^ 64 * c.mantissaRadix ^ (ds.length - step) := Nat.mul_le_mul_right _ (by omega)
+    have hsound : extendedToFloat F fp = roundNE F.fmt (litFrac c.mantissaRadix c.exponentBase (numberLit c n)).1
+        (litFrac c.mantissaRadix c.exponentBase (numberLit c n)).2 := by
+      rw [hcg]
+      apply hval _ _ hpfpos
+      · intro hpos
+        unfold powFrac
+        rw [if_pos (by omega)]
+        simp only [Nat.one_mul]
+        rw [Nat.mul_comm]
+        exact Nat.mul_le_mul_right _ hK
+      · intro hneg
+        unfold powFrac
+        rw [if_neg (by omega)]
+        simp only
+        calc valOf c.mantissaRadix 0 ds * c.exponentBase ^ (-n.exponent).toNat
+            < 2 ^ 64 * c.mantissaRadix ^ (ds.length - step) * c.exponentBase ^ (-n.exponent).toNat :=
+              Nat.mul_lt_mul_of_pos_right hKu (Nat.pow_pos (by omega))
+          _ = 2 ^ 64 * (c.exponentBase ^ (-n.exponent).toNat * c.mantissaRadix ^ (ds.length - step)) := by ring
+    unfold numberToFloat
+    rw [hfast]
+    simp only
+    rw [hmp, hbin]
+    simp only
+    rw [if_neg (by omega), toNative_eq F fp n.isNegative hsound, hbits, hlit]
+    rfl
+  have hexp := hin
   cases hbin : Binary.binary F c.exponentBase (numOf n) false with
   | panic => exact absurd hbin (binary_no_panic _ _ _ _)
   | ok fp =>
@@ -439,10 +556,10 @@ inductive RadixClass (c : Cfg) : Prop
 
 /-- what the syntax layer owes for one `Number` of a non-decimal radix (the analogue of
 `C01Number.number_exact_of_syntax` / `number_truncated_of_syntax`, which are proved for radix 10):
-untruncated — exact words (power-of-two radices: with an exponent inside `±2^27`); truncated, power-of-two radix — `TruncPow2At`; truncated,
+untruncated — exact words (power-of-two radices: with an exponent inside `±2^59`, `ExpWide`); truncated, power-of-two radix — `TruncPow2At`; truncated,
 generic radix — a mantissa word of at least 55 bits and the value of all the digits in `[w, w+1)·radix^exponent` -/
 def SyntaxFacts (c : Cfg) (n : Number) : Prop :=
-  (n.manyDigits = false → NumberExactAt c n ∧ (IsPow2 c.mantissaRadix → ExpInRange n.exponent)) ∧
+  (n.manyDigits = false → NumberExactAt c n ∧ (IsPow2 c.mantissaRadix → ExpWide n.exponent)) ∧
   (n.manyDigits = true → IsPow2 c.mantissaRadix → TruncPow2At c n) ∧
   (n.manyDigits = true → GenericClass c → n.mantissa < 2 ^ 64 ∧ 2 ^ 55 ≤ n.mantissa ∧
     TrueValue c.mantissaRadix (numOf n) (litFrac c.mantissaRadix c.exponentBase (numberLit c n)).1
@@ -471,7 +588,7 @@ theorem numberToFloat_radix (slow : SlowRadix) {F : FTy} (hF : IsLemireFloat F) 
         rcases hr with h | h | h | h | h <;> rw [h] <;> omega
       have hb2 : 2 ≤ c.exponentBase := by
         rcases hb with h | h | h | h | h <;> rw [h] <;> omega
-      rw [pipeline_binary slow hF c hp hr hb n hmany hx.1 (he hr) hx.2.2]
+      rw [pipeline_binary_wide slow hF c hp hr hb n hmany hx.1 (he hr) hx.2.2]
       rw [(spec_forms hF c hr2.1 hr2.2 hb2 n hmany hx.2.2).2]
     · obtain ⟨_, _, h2, h36⟩ := generic_not_pow2 G.mem
       rw [numberToFloat_generic_exact hF slow c G n hmany hx (hslow G)]
